@@ -14,7 +14,7 @@ pub fn run(id: &str, tier: &str) -> i32 {
     }
     match id {
         "C01" => c01::run(tier),
-        "C02" | "C03" | "C04" | "C05" | "C16" => {
+        "C02" | "C03" | "C04" | "C05" | "C16" | "C09" | "C10" => {
             let d = hist_def(id).unwrap();
             let mut rep = crate::engine::Report::new(d.id, tier, d.level);
             common::run_hist(&d, tier, &mut rep);
@@ -38,6 +38,8 @@ fn hist_def(id: &str) -> Option<common::HistProp> {
         "C04" => Some(fsprops::c04_def()),
         "C05" => Some(fsprops::c05_def()),
         "C16" => Some(fsprops::c16_def()),
+        "C09" => Some(fsprops::c09_def()),
+        "C10" => Some(fsprops::c10_def()),
         _ => None,
     }
 }
